@@ -19,7 +19,7 @@ mkdir -p "$S/verif/evidence" "$S/verif/replays"
 cleanup() { cd /; git -C /repo worktree remove --force "$S/repo" 2>/dev/null; rm -rf "$S"; }
 trap cleanup EXIT
 
-if [ $# -gt 0 ]; then NAMES="$*"; else NAMES="BASELINE $(cd "$VERIF/mutants" && ls *.diff | sed 's/\.diff$//')"; fi
+if [ $# -gt 0 ]; then NAMES="$*"; else NAMES="BASELINE $(cd "$VERIF/mutants" && ls *.diff | sed 's/\.diff$//') $(ls -d "$VERIF"/seeded/*/ | sed 's|/$||; s|$|/patch.diff|')"; fi
 OUT="$VERIF/mutants/RESULTS-$TIER.tsv"
 [ $# -gt 0 ] && OUT="/dev/stdout"
 {
@@ -29,11 +29,14 @@ for name in $NAMES; do
     expected="-"
     if [ "$name" != "BASELINE" ]; then
         patch="$VERIF/mutants/$name.diff"
-        case "$name" in *.diff) patch="$name"; name="$(basename "$name" .diff)" ;; esac
+        case "$name" in
+            */seeded/*/patch.diff) patch="$name"; name="seeded/$(basename "$(dirname "$name")")"; expected="$(basename "$(dirname "$patch")" | cut -d- -f1)" ;;
+            *.diff) patch="$name"; name="$(basename "$name" .diff)" ;;
+        esac
         if ! git -C "$S/repo" apply "$patch" 2>"$S/apply.err"; then
             printf "%s\t-\tPATCH-DOES-NOT-APPLY\n" "$name"; continue
         fi
-        expected=$(python3 -c "import json,sys; print(','.join(json.load(open('$VERIF/mutants/INDEX.json')).get('$name',[])))")
+        [ "$expected" = "-" ] && expected=$(python3 -c "import json,sys; print(','.join(json.load(open('$VERIF/mutants/INDEX.json')).get('$name',[])))")
     fi
     # the repository's own suite must still pass (otherwise the mutant is not a realistic one)
     if (cd "$S/repo" && cargo test --workspace --offline >"$S/suite.log" 2>&1); then suite=pass; else suite=FAIL; fi
@@ -43,7 +46,7 @@ for name in $NAMES; do
         rc=$?
         case $rc in
             0) cell="held" ;;
-            1) cell="VIOLATION($(grep -m1 '^  class=' "$S/$id.log" | sed 's/.*class=//'))" ;;
+            1) cell="VIOLATION($(grep '^  class=' "$S/$id.log" | sed 's/.*class=//' | paste -sd+))" ;;
             *) cell="ERROR($rc)" ;;
         esac
         row="$row\t$cell"
